@@ -8,6 +8,8 @@ Kept as data so that MANIFEST.json, the check driver and the evidence writer agr
 UNITS = {
     "comm": dict(template="units/comm.vt.rs", rlimit=200,
                  about="the poll()-driven exchange loop of communicate.rs (unix variant) against the exchange model"),
+    "pstate": dict(template="units/pstate.vt.rs", rlimit=50,
+                   about="the Popen child-state machine (waitpid/wait/wait_timeout/poll/terminate/kill/send_signal/Drop) against the one-child process model"),
 }
 
 # --------------------------------------------------------------------------------------------- properties
@@ -16,6 +18,9 @@ PROPS = {
     "C02": dict(units=["comm"], kani=[], level="proof"),
     "C03": dict(units=["comm"], kani=[], level="proof"),
     "C04": dict(units=["comm"], kani=[], level="proof"),
+    "C09": dict(units=["pstate"], kani=[], level="proof"),
+    "C10": dict(units=["pstate"], kani=[], level="proof"),
+    "C11": dict(units=["pstate"], kani=[], level="proof"),
 }
 
 # --------------------------------------------------------------------------------------------- replay scenarios
@@ -29,6 +34,15 @@ SCENARIOS = [
 # --------------------------------------------------------------------------------------------- assumptions
 # free-text trusted base per unit (in addition to the mechanically listed external_body/axiom items)
 UNIT_TRUST = {
+    "pstate": [
+        "process-state model (units/models/procstate.rs): waitpid returns a child's status only after it terminated and then reaps it; "
+        "ECHILD means somebody else reaped it; WNOHANG returns 0 only while the child exists; sleep(d) advances the clock by at least d",
+        "the exit status is a prophecy variable `fate` (exit code 0..255 or fatal signal 1..127); decoding of the raw status word is proved separately (Kani, posix::decode_exit_status)",
+        "trait methods (PopenOs, PopenOsImpl, PopenExt) are emitted as inherent methods of Popen: each trait has exactly one impl per platform",
+        "Popen::drop is verified as the inherent method drop_impl (R8); that the compiler calls it when a Popen goes out of scope is Rust semantics",
+        "std: Result::unwrap_or (assume_specification in units/models/stdspecs.rs)",
+        "liveness of the child is not modelled: a blocking waitpid returns when the child terminates",
+    ],
     "comm": [
         "exchange model (units/models/exchange.rs): Linux pipe semantics of read/write/poll on the three slots; "
         "a write of <= PIPE_BUF bytes after POLLOUT does not block; poll never returns 0 before its timeout",
